@@ -13,10 +13,10 @@ EXPLANATION = (
     "so each label is the exact decimal of its tick (distinct ticks -> distinct texts, read-back error 0)."
 )
 BOUNDS = {
-    "quick": dict(domain="end points in [-1e9,1e9], span in [1e-9,1e12] and >= 1e-6*|end point|, either order", m="1, 2, 5, 10, default", log10_window="k in [-13,14]"),
-    "thorough": dict(m="1..20 and default"),
+    "quick": dict(domain="end points in [-1e9,1e9], span in [1e-9,1e12] and >= 1e-6*|end point|, either order", m="1, 2, 5, 10, default; 100 (ascending only)", log10_window="k in [-13,14]"),
+    "thorough": dict(m="1..20, default, 100 (ascending)"),
 }
-OUTSIDE = ["m > 20", "float drift of the accumulating generator and float effects at the two ends (the statement's own caveat): exact arithmetic here", "10**-k is the decimal 1/10^k, not its binary64 neighbour"]
+OUTSIDE = ["m other than those listed (the statement goes to 100)", "float drift of the accumulating generator and float effects at the two ends (the statement's own caveat): exact arithmetic here", "10**-k is the decimal 1/10^k, not its binary64 neighbour"]
 ASSUMPTIONS = ["floats as exact reals", "floor(log10 x) = k <=> 10^k <= x < 10^(k+1), either neighbour at exact powers", "format '.Nf' prints the correctly rounded N-decimal"]
 
 
